@@ -216,6 +216,22 @@ def translate(repo):
            "/-! GENERATED by harness/translate_cvn.py from pyemv/cvn.py — do not edit. -/",
            "namespace Pyemv.CvnGen", "open Pyemv", ""]
     classes = []
+    for n in tree.body:            # nothing at module level may carry state or wrap a class
+        if isinstance(n, (ast.Import, ast.ImportFrom)):
+            continue
+        if isinstance(n, ast.Expr) and isinstance(n.value, ast.Constant) and isinstance(n.value.value, str):
+            continue
+        if isinstance(n, ast.Assign) and len(n.targets) == 1 and isinstance(n.targets[0], ast.Name) and n.targets[0].id == "__all__":
+            continue
+        if isinstance(n, ast.ClassDef) and not n.decorator_list and not n.bases and not n.keywords:
+            for st in n.body:
+                if isinstance(st, ast.Expr) and isinstance(st.value, ast.Constant):
+                    continue
+                if isinstance(st, ast.FunctionDef) and not st.decorator_list:
+                    continue
+                raise Unsupported(f"{n.name}: class-level statement `{ast.unparse(st)[:50]}`")
+            continue
+        raise Unsupported(f"module-level statement `{ast.unparse(n)[:60]}`")
     for cls in [n for n in tree.body if isinstance(n, ast.ClassDef)]:
         methods = {}
         fns = [n for n in cls.body if isinstance(n, ast.FunctionDef)]
